@@ -225,6 +225,115 @@ def h_keys(ctx, pidx):
     ctx.observe("n", n)
 
 
+class _ReplaySession:
+    """libsrtp session stand-in with its sender-side replay database: protect() of a packet whose
+    sequence number lies window_size or more behind the highest one protected so far fails
+    ('replay check failed (index too old)'); a repeat inside the window needs allow_repeat_tx.
+    The window is 128 packets unless the policy says otherwise."""
+
+    sessions = []
+
+    class Error(Exception):
+        pass
+
+    def __init__(self, policy):
+        self.policy = policy
+        self.highest = None
+        self.seen = []
+        _ReplaySession.sessions.append(self)
+
+    def protect(self, data):
+        seq = (data[2] << 8) | data[3]
+        window = getattr(self.policy, "window_size", None) or 128
+        if self.highest is not None:
+            behind = (self.highest - seq) & 0xFFFF
+            if behind < 0x8000:
+                if behind >= window:
+                    raise _ReplaySession.Error("replay check failed (index too old)")
+                if any(bool(s == seq) for s in self.seen) and not getattr(self.policy, "allow_repeat_tx", False):
+                    raise _ReplaySession.Error("replay check failed (bad index)")
+            else:
+                self.highest = seq
+        else:
+            self.highest = seq
+        self.seen.append(seq)
+        return data
+
+    def protect_rtcp(self, data):
+        return data
+
+
+def h_srtp_window(ctx, role, pidx):
+    """After key setup, a media packet up to 1023 sequence numbers behind the newest one sent
+    (a retransmission, a late first send, across the 16-bit wrap) can still be sent: 'every RTP
+    packet sent by one side is received by the other'."""
+    prof = SRTP_PROFILES[pidx]
+    n = 2 * (prof.key_length + prof.salt_length)
+    env = Env(ctx, "controlling", True, prof.openssl_profile, lambda k: bytes(k))
+    _ReplaySession.sessions = []
+    with Patch(dtls, SSL=env.ssl, Policy=_Policy, Session=_ReplaySession, certificate_digest=env.certificate_digest, asyncio=env.asyncio):
+        t = _mk_transport(env, "controlling", role)
+        t._ssl = env.ssl.Connection(None)
+        t._setup_srtp()
+        t._set_state(dtls.State.CONNECTED)
+        hi = ctx.int("newest_seq", 0, 0xFFFF)
+        behind = ctx.int("behind", 0, 1023)
+        for seq in (hi, (hi - behind) & 0xFFFF):
+            pkt = sx.mkbytes([0x80, 96, seq >> 8, seq & 0xFF] + [0] * 8)
+            sx.run(t._send_rtp(pkt))
+    ctx.reach("late-packet-sent")
+    ctx.check(len(t.transport.sent) == 2, "both-packets-reach-the-wire")
+    ctx.observe("n", len(t.transport.sent))
+
+
+def h_ssl_profiles(ctx):
+    """A certificate shared by two transports with different SRTP profile preference lists: each
+    transport's DTLS context offers exactly its own list, in its own order."""
+
+    class _Ctx:
+        made = []
+
+        def __init__(self, method):
+            self.srtp = None
+            _Ctx.made.append(self)
+
+        def set_verify(self, *a):
+            pass
+
+        def use_certificate(self, c):
+            pass
+
+        def use_privatekey(self, k):
+            pass
+
+        def set_cipher_list(self, c):
+            pass
+
+        def set_tlsext_use_srtp(self, profiles):
+            self.srtp = profiles
+
+    class _SslMod:
+        Context = _Ctx
+        DTLS_METHOD = 1
+        VERIFY_PEER = 1
+        VERIFY_FAIL_IF_NO_PEER_CERT = 2
+
+    _Ctx.made = []
+    orders = [[0], [1], [2], [0, 1], [1, 0], [2, 0, 1], [0, 1, 2], [1, 2]]
+    l1 = ctx.choice("first_list", orders)
+    l2 = ctx.choice("second_list", orders)
+    cert = dtls.RTCCertificate(key="key", cert="cert")
+    with Patch(dtls, SSL=_SslMod):
+        c1 = cert._create_ssl_context([SRTP_PROFILES[i] for i in l1])
+        c2 = cert._create_ssl_context([SRTP_PROFILES[i] for i in l2])
+    ctx.reach("contexts-created")
+    want1 = b":".join(SRTP_PROFILES[i].openssl_profile for i in l1)
+    want2 = b":".join(SRTP_PROFILES[i].openssl_profile for i in l2)
+    ctx.check(c1.srtp == want1, "first-context-offers-its-own-profile-list")
+    ctx.check(c2.srtp == want2, "second-context-offers-its-own-profile-list", "%r instead of %r" % (c2.srtp, want2))
+    ctx.observe("n", len(_Ctx.made))
+
+
 def h_demux(ctx, connected):
     """_recv_next on one datagram with symbolic leading bytes: RFC 7983 demultiplexing.  Every
     datagram whose first byte is 128..191 reaches SRTP unprotect and then the RTP or RTCP handler
@@ -321,6 +430,8 @@ STUBS = [
 OUT = ["the DTLS handshake, certificate parsing, SRTP encryption/authentication (OpenSSL, libsrtp): 'packets altered in transit are discarded' is not claimed"]
 
 HARNESSES = {
+    "ssl-profiles": Harness("ssl-profiles", h_ssl_profiles, lambda tier: [{}], style="BMC over configurations", bounds="one certificate, two DTLS contexts with solver-chosen SRTP profile lists from 8 subsets/orders of the three profiles", encoded=["aiortc.rtcdtlstransport:RTCCertificate._create_ssl_context"], stubs=["OpenSSL.SSL.Context -> recorder"], outside=OUT, twin="contexts-created", opts={"samples": 1}),
+    "srtp-window": Harness("srtp-window", h_srtp_window, lambda tier: [{"role": r, "pidx": p} for r in ("client", "server") for p in ((0,) if tier == "quick" else range(len(SRTP_PROFILES)))], style="STEP", bounds="newest sequence number symbolic (16 bit), a second packet 0..1023 behind it (also across the wrap); both roles, profile 0 (quick) / every profile", encoded=["aiortc.rtcdtlstransport:RTCDtlsTransport._setup_srtp", "aiortc.rtcdtlstransport:RTCDtlsTransport._send_rtp"], stubs=STUBS + ["pylibsrtp.Session -> model of libsrtp's sender-side replay window (too-old check against policy.window_size, default 128; repeats need allow_repeat_tx)"], outside=OUT, twin="late-packet-sent", opts={"samples": 1}),
     "demux": Harness("demux", h_demux, lambda tier: [{"connected": c} for c in (True, False)], style="STEP", bounds="one datagram, first two bytes symbolic (all 65536 values), transport with / without SRTP sessions", encoded=["aiortc.rtcdtlstransport:RTCDtlsTransport._recv_next", "aiortc.rtp:is_rtcp"], stubs=["SRTP session -> identity recorder; DTLS engine -> recorder; RTP/RTCP handlers -> recorders"], outside=["SRTP authentication itself (libsrtp)"], twin="demuxed", opts={"samples": 1}),
     "policy": Harness("policy", h_policy, _policy_jobs, style="STEP", bounds="fingerprint lists of 0..2 (quick) / 0..3 entries, algorithm from {sha-256, SHA-256, Sha-384, sha-512, sha-1, md5}, values 2 symbolic characters 0x30..0x7A (any case, equal or not to the digest), handshake ok/failed, 4 SRTP profile outcomes, DTLS role auto/client/server", encoded=ENC, stubs=STUBS, outside=OUT, twin="started", opts={"samples": 1}),
     "keys": Harness("keys", h_keys, lambda tier: [{"pidx": i} for i in range(len(SRTP_PROFILES))], style="RT", bounds="every available SRTP profile, both roles, fully symbolic keying material", encoded=ENC, stubs=STUBS, outside=OUT, twin="keys-derived"),
